@@ -246,3 +246,11 @@ def rule_inventory(ctx):
 
 
 RULES.append(("C09.g", "state-mutation inventory: no new site that changes the content of the state this property rests on", rule_inventory))
+
+
+def rule_mustpass(ctx):
+    from . import mustpass
+    mustpass.check(ctx, ['cancelled-head-discarded', 'direct-sends-await'])
+
+
+RULES.append(("C09.h", "must-pass-through: no path around the effects this property rests on (added fast paths / early returns)", rule_mustpass))
